@@ -159,7 +159,7 @@ class _Problems(list):
         super().append(msg)
 
 
-def oracle(asm, code: bytes, symbol_map, const_map, push0: bool, opbyte):
+def oracle(asm, code: bytes, symbol_map, const_map, push0: bool, opbyte, evm=None):
     """Property oracle on REAL output: walks the item list and the real bytes in lock step using
     only the resolved maps (no re-assembly).  Returns a list of problem strings (empty = holds).
     `opbyte(name)` is the Yellow-Paper byte of a mnemonic (independent table)."""
@@ -244,6 +244,8 @@ def oracle(asm, code: bytes, symbol_map, const_map, push0: bool, opbyte):
                              f"{code[pc] if pc < len(code) else None} != {b}")
             elif name == "PUSH0" and not push0:
                 probs.append(f"item {idx}: PUSH0 emitted for a target without PUSH0")
+            elif evm is not None and not opcode_defined(b, evm):
+                probs.append(f"item {idx}: {name} ({b:#04x}) is not an instruction on target {evm}")
             if b is not None and 0x60 <= b <= 0x7F:
                 pend = b - 0x5F
             pc += 1
@@ -284,6 +286,39 @@ def yp_table():
     t.update(CREATE=0xF0, CALL=0xF1, CALLCODE=0xF2, RETURN=0xF3, DELEGATECALL=0xF4, CREATE2=0xF5,
              STATICCALL=0xFA, REVERT=0xFD, INVALID=0xFE, SELFDESTRUCT=0xFF)
     return t
+
+
+# first fork (index into EVM_NAMES) on which an opcode byte exists; bytes absent from yp_table() are
+# undefined on every fork.  (EIP-3855 PUSH0: shanghai; EIP-1153 TLOAD/TSTORE, EIP-5656 MCOPY,
+# EIP-4844 BLOBHASH, EIP-7516 BLOBBASEFEE: cancun.  Everything else predates london.)
+INTRODUCED = {0x5F: "shanghai", 0x5C: "cancun", 0x5D: "cancun", 0x5E: "cancun", 0x49: "cancun", 0x4A: "cancun"}
+
+
+def opcode_defined(byte, evm):
+    if byte not in set(yp_table().values()):
+        return False
+    return EVM_NAMES.index(evm) >= EVM_NAMES.index(INTRODUCED.get(byte, "london"))
+
+
+def target_validity(code: bytes, code_len: int, evm):
+    """Decode the code part [0, code_len) of real bytecode independently and require every opcode byte to
+    be defined on the target fork.  Returns problem strings."""
+    defined = {b for b in set(yp_table().values()) if EVM_NAMES.index(evm) >= EVM_NAMES.index(INTRODUCED.get(b, "london"))}
+    names = {}
+    for k, v in yp_table().items():
+        names.setdefault(v, k)
+    probs = []
+    i = 0
+    while i < code_len:
+        b = code[i]
+        if b not in defined:
+            intro = INTRODUCED.get(b)
+            probs.append(f"offset {i}: opcode byte {b:#04x} ({names.get(b, 'unassigned')}) is not an instruction on "
+                         f"target {evm}" + (f" (introduced in {intro})" if intro else ""))
+            if len(probs) >= 4:
+                break
+        i += 1 + (b - 0x5F if 0x60 <= b <= 0x7F else 0)
+    return probs
 
 
 # ---------------------------------------------------------------- corpus
@@ -506,7 +541,7 @@ def parse_run(out):
         raise ValueError(f"unparsable model output: {out[:200]}")
 
     def pairs(t):
-        return {int(a): int(b) for a, b in re.findall(r"\((-?\d+), \(?(-?\d+)\)?\)", t)}
+        return {int(a): int(b) for a, b in re.findall(r"\(\s*(-?\d+),\s*\(?(-?\d+)\)?\s*\)", t)}
 
     return m.group(1), m.group(2) == "true", pairs(m.group(3)), pairs(m.group(4))
 
